@@ -20,7 +20,7 @@ DofS     == <<6, 5>>
 PoseS    == <<"generic", "j5-zero", "j5-pi", "stretched", "on-j1-axis", "unreachable", "nan", "inf">>
 PrevS    == <<"near", "far", "centered">>
 LimS     == <<"none", "wide", "narrow", "wrap", "some-equal", "excluding">>
-GeomS    == <<"plain", "b-nonzero", "a2-positive", "a2-negative", "a1-negative", "a1-zero", "offsets-only">>
+GeomS    == <<"plain", "b-nonzero", "a2-positive", "a2-negative", "a1-negative", "a1-zero", "offsets-only", "c4-zero", "c1-zero">>
 OffS     == <<"zero", "quarter", "random">>
 W16S     == <<0, 4, 8, 12, 16, 5>>
 StackS   == <<"bare", "tool", "base", "base+tool", "frame", "tool>base", "pgram", "tool>pgram", "pgram>pgram">>
@@ -32,7 +32,7 @@ vars == <<en, df, po, pr, li, gx>>
 IsCont(e) == e \in {2, 4}
 Init == /\ en \in 1..4 /\ df \in 1..2 /\ po \in 1..8 /\ li \in 1..6
         /\ pr \in (IF IsCont(en) THEN 1..3 ELSE {1})
-        /\ gx \in (IF Thorough THEN 1..7 ELSE {0})
+        /\ gx \in (IF Thorough THEN 1..9 ELSE {0})
 Next == UNCHANGED vars
 Spec == Init /\ [][Next]_vars
 
@@ -40,8 +40,8 @@ Id == ((((en - 1) * 2 + (df - 1)) * 8 + (po - 1)) * 3 + (pr - 1)) * 6 + (li - 1)
 Five == en \in {3, 4} \/ df = 2
 
 Emit ==
-  LET id == Id  g == IF gx = 0 THEN (id % 7) + 1 ELSE gx IN
-  PrintT(ToJson([gen |-> "scenario", id |-> id * 8 + gx,
+  LET id == Id  g == IF gx = 0 THEN (id % 9) + 1 ELSE gx IN
+  PrintT(ToJson([gen |-> "scenario", id |-> id * 10 + gx,
                  entry |-> EntriesS[en], dof |-> DofS[df], pose |-> PoseS[po],
                  prev |-> IF IsCont(en) THEN PrevS[pr] ELSE "none", limits |-> LimS[li],
                  geom |-> GeomS[g], signs |-> (id * 37 + 11 * g) % 64, offsets |-> OffS[((id + g) % 3) + 1],
